@@ -99,6 +99,14 @@ func worldScenario(c *Ctx, run string, rng *mrand.Rand, genesisOffset time.Durat
 		seq := w.NewNode(world.NodeOpts{Name: "seq", Aggregator: true, Lazy: lazy, BlockTime: 100 * time.Millisecond, LazyInterval: 400 * time.Millisecond, DABlockTime: daBT, MempoolTTL: ttl})
 		seq.KV.Quiet = false
 		full := w.NewNode(world.NodeOpts{Name: "full", Aggregator: false, DAStart: 1, DABlockTime: daBT, BlockTime: 100 * time.Millisecond})
+		if rng.Intn(2) == 0 { // durable writes as scheduling points on both nodes
+			if seq.KV != nil {
+				seq.KV.Yield = 4
+			}
+			if full.KV != nil {
+				full.KV.Yield = 4
+			}
+		}
 		full.KV.Quiet = true
 		full.Exec.ShareRoots(seq.Exec)
 		inner, err := single.NewSequencer(context.Background(), logging.Logger("verif-seq"), seq.KV, w.DA, []byte(world.ChainID), time.Second, nil, true)
